@@ -5,6 +5,7 @@ import (
 	"encoding/json"
 	"fmt"
 	"os"
+	"regexp"
 	"runtime"
 	"strconv"
 	"strings"
@@ -204,7 +205,50 @@ func (g *detGen) observe(v *Node) *Node {
 }
 
 func (g *detGen) form() *Node {
-	switch g.r.Pick([]int{10, 3, 2, 2, 2, 2, 1}) {
+	switch g.r.Pick([]int{10, 3, 2, 2, 2, 2, 1, 2, 3, 2, 2, 2}) {
+	case 7:
+		// a call that the argument binder refuses for several reasons at once
+		f := g.sym("kf")
+		g.out = append(g.out, L(A("defun"), A(f), L(A("a"), A("&key"), A("k1"), A("k2")), Call("list", A("a"), A("k1"), A("k2"))))
+		xs := []*Node{A(f), g.scalar()}
+		for _, k := range []string{":zeta", ":alpha", ":mu", ":k1", ":omega", ":beta"}[:g.r.Range(2, 6)] {
+			xs = append(xs, A(k), g.scalar())
+		}
+		return L(xs...)
+	case 8:
+		// documented user functions looked up through the help package; the
+		// noise program defines other documented functions in other runtimes
+		f := g.sym("hf")
+		doc := fmt.Sprintf("Documentation text %d for %s.", g.r.Intn(1000), f)
+		g.out = append(g.out, L(A("defun"), A(f), L(A("x"), A("y")), Str(doc), Call("list", A("x"), A("y"))))
+		if g.r.Bool() {
+			return Call("help:help", A(f))
+		}
+		return Call("progn", Call("export", QS(f)), Call("help:help-package", QS("user")))
+	case 9:
+		// decoding errors when several members of one object are bad
+		n := g.r.Range(2, 5)
+		var parts []string
+		for i := 0; i < n; i++ {
+			parts = append(parts, fmt.Sprintf("\"m%d\": %d99999999999999999999", g.r.Intn(90), g.r.Range(1, 9)))
+		}
+		return Call("json:load-string", Str("{"+strings.Join(parts, ", ")+"}"), A(":exact-integers"), A("true"))
+	case 10:
+		// misuse of library function values: the message names the function
+		return PickNode(g.r,
+			L(Call("s:gt", I(3)), I(1), I(2)),
+			L(Call("s:in", Str("a"), Str("b")), I(1), I(2), I(3)),
+			Call("s:validate", Call("s:len", I(2)), I(1), I(2)),
+			L(Call("s:gte", I(3))))
+	case 11:
+		// other interpreter-detected errors whose message is assembled from several candidates
+		return PickNode(g.r,
+			Call("sorted-map", g.key(), g.scalar(), g.key()),
+			Call("get", g.mapExpr(0), Call("list", I(1))),
+			Call("assoc", g.mapExpr(0), Call("vector", I(1)), I(2)),
+			Call("format-string", Str("{} {} {}"), g.scalar()),
+			Call("json:dump-string", Call("sorted-map", Str("f"), g.closure(), Str("g"), A("car"))),
+			Call("json:load-string", Str("{\"a\": tru, \"b\": nul}")))
 	case 0:
 		return g.observe(g.value(1))
 	case 1:
@@ -245,8 +289,19 @@ func (e *detEngine) Gen(r *Rand, tier string) any {
 	g := &detGen{r: r.Fork()}
 	c.Forms = g.program(r.Range(2, 7))
 	// the program ends in an uncaught error in some cases (message + trace)
-	if r.Chance(1, 3) {
+	switch r.Intn(6) {
+	case 0, 1:
 		c.Forms = append(c.Forms, Call("error", QS("final"), g.value(1)))
+	case 2:
+		// an uncaught error raised by the interpreter or a library itself: its
+		// message names the function that refused the call
+		c.Forms = append(c.Forms, PickNode(r,
+			L(Call("s:gt", I(3)), I(1), I(2)),
+			L(L(A("lambda"), L(A("a"), A("b")), A("a")), I(1)),
+			Call("s:validate", Call("s:int", Call("s:gt", I(5))), I(1)),
+			L(Call("compose", A("car"), A("cdr")), I(1), I(2)),
+			Call("funcall", Call("s:in", Str("x")), Str("y"), Str("z")),
+			Call("json:dump-string", g.closure())))
 	}
 	gn := &detGen{r: r.Fork()}
 	c.Noise = gn.program(r.Range(1, 4))
@@ -277,14 +332,31 @@ func (e *detEngine) Gen(r *Rand, tier string) any {
 // -------------------------------------------------------------------- run
 
 type transcript struct {
-	Result string
-	Stderr string
-	Trace  string
-	Steps  int64
+	Result  string
+	ErrText string // (*ErrorVal).Error(): what a Go embedder sees as the error message
+	Stderr  string
+	Trace   string
+	Steps   int64
+}
+
+var validatorName = regexp.MustCompile(`_validation_fun_[0-9]+`)
+
+// normalised masks the one known process-history leak (known finding D5: the
+// name of an anonymous schema validator comes from a process-wide counter) so
+// that it is reported once, under its own oracle, and cannot hide or be
+// confused with any other difference.
+func (t transcript) normalised() transcript {
+	n := t
+	n.Result = validatorName.ReplaceAllString(t.Result, "_validation_fun_N")
+	n.ErrText = validatorName.ReplaceAllString(t.ErrText, "_validation_fun_N")
+	n.Stderr = validatorName.ReplaceAllString(t.Stderr, "_validation_fun_N")
+	n.Trace = validatorName.ReplaceAllString(t.Trace, "_validation_fun_N")
+	return n
 }
 
 func (t transcript) hash() Hash {
-	return NewHash().Str(t.Result).Str(t.Stderr).Str(t.Trace).Int(t.Steps)
+	t = t.normalised()
+	return NewHash().Str(t.Result).Str(t.ErrText).Str(t.Stderr).Str(t.Trace).Int(t.Steps)
 }
 
 func mkTranscript(o Outcome) transcript {
@@ -293,6 +365,7 @@ func mkTranscript(o Outcome) transcript {
 		var b bytes.Buffer
 		_, _ = (*lisp.ErrorVal)(o.Val).WriteTrace(&b)
 		t.Trace = b.String()
+		t.ErrText = (*lisp.ErrorVal)(o.Val).Error()
 	}
 	return t
 }
@@ -320,9 +393,18 @@ func detRun(k Knobs, src string, chunk int) (transcript, error) {
 }
 
 func diffTranscript(a, b transcript) (string, string) {
+	if a != b && a.normalised() == b.normalised() {
+		for _, p := range [][2]string{{a.Result, b.Result}, {a.ErrText, b.ErrText}, {a.Stderr, b.Stderr}, {a.Trace, b.Trace}} {
+			if p[0] != p[1] {
+				return "validator-name-leak", fmt.Sprintf("%.300q vs %.300q", p[0], p[1])
+			}
+		}
+	}
 	switch {
 	case a.Result != b.Result:
 		return "result-differs", fmt.Sprintf("%q vs %q", a.Result, b.Result)
+	case a.ErrText != b.ErrText:
+		return "error-message-differs", fmt.Sprintf("%q vs %q", a.ErrText, b.ErrText)
 	case a.Stderr != b.Stderr:
 		return "output-differs", fmt.Sprintf("%q vs %q", a.Stderr, b.Stderr)
 	case a.Steps != b.Steps:
@@ -379,10 +461,19 @@ func (e *detEngine) Run(ci any, st *Stats) *Violation {
 	}
 	st.Runs++
 	st.SimSteps += ref.Steps
+	var leak *Violation
 	cmp := func(what string, tr transcript) *Violation {
 		st.Runs++
 		if o, d := diffTranscript(ref, tr); o != "" {
-			return Violf(o, "first run vs %s: %s", what, d)
+			v := Violf(o, "first run vs %s: %s", what, d)
+			if o == "validator-name-leak" {
+				// keep going: every other comparison still applies to the rest of the transcript
+				if leak == nil {
+					leak = v
+				}
+				return nil
+			}
+			return v
 		}
 		return nil
 	}
@@ -503,7 +594,10 @@ func (e *detEngine) Run(ci any, st *Stats) *Violation {
 		return v
 	}
 	st.NoteHash(ref.hash(), true)
-	return e.expectCheck(c, ref)
+	if v := e.expectCheck(c, ref); v != nil {
+		return v
+	}
+	return leak
 }
 
 // expectCheck compares with a transcript hash recorded by another process
